@@ -33,6 +33,8 @@ package rdb
 //@ ensures[shape] err == nil ==> ref(result) == ref(data) && off(result) == off(data) && len(result) == len(data) - 4 - len(value)
 //@ ensures[noeffect] err != nil ==> result == nil && forall(q, 0, len(data), data[q] == old(data[q]))
 //@ ensures[errkind] old(chunks(data, n, offs, idx)) ==> err == nil || err == ErrNXVal
+//@ ensures[errkinds] err == nil || err == ErrNXVal || err == io.ErrUnexpectedEOF
+//@ ensures[buf] err == nil ==> ref(result) == ref(data)
 //@ ensures[nxval] old(chunks(data, n, offs, idx)) ==> (err == ErrNXVal <==> forall(j, 0, n, !old(chunkEq(data, offs, j, value))))
 //@ ensures[found] old(chunks(data, n, offs, idx)) && err == nil ==> 0 <= k && k < n && old(chunkEq(data, offs, k, value)) && forall(j, 0, k, !old(chunkEq(data, offs, j, value)))
 //@ ensures[prefix] old(chunks(data, n, offs, idx)) && err == nil ==> forall(q, 0, offs[k], result[q] == old(data[q]))
@@ -144,6 +146,7 @@ package rdb
 //@ ensures[keyeq] seqeq(recv.addedPairs[len(recv.addedPairs)-1].key, key)
 //@ ensures[valeq] seqeq(recv.addedPairs[len(recv.addedPairs)-1].values[0], value)
 //@ ensures[copy] fresh(recv.addedPairs[len(recv.addedPairs)-1].key) && fresh(recv.addedPairs[len(recv.addedPairs)-1].values[0])
+//@ ensures[inv] old(batchInv(recv)) ==> batchInv(recv)
 
 //@ func Batch.Del
 //@ modifies recv
@@ -154,9 +157,11 @@ package rdb
 //@ ensures[keyeq] seqeq(recv.deletedPairs[len(recv.deletedPairs)-1].key, key)
 //@ ensures[valeq] seqeq(recv.deletedPairs[len(recv.deletedPairs)-1].values[0], value)
 //@ ensures[copy] fresh(recv.deletedPairs[len(recv.deletedPairs)-1].key) && fresh(recv.deletedPairs[len(recv.deletedPairs)-1].values[0])
+//@ ensures[inv] old(batchInv(recv)) ==> batchInv(recv)
 
 //@ func RDB.CreateBatch
 //@ ensures result != nil && fresh(result) && len(result.addedPairs) == 0 && len(result.deletedPairs) == 0 && result.sorted
+//@ ensures[inv] batchInv(result)
 
 // ---- ExecuteBatch (C07, C08, C15): the read-modify-write of all affected keys happens under writeMutex, --
 // ---- goes to the store as ONE write batch, and a failing integration writes nothing -----------------------
@@ -175,12 +180,122 @@ package rdb
 //@ extern github.com/facebookincubator/dns/dnsrocks/cgo-rocksdb Batch.Destroy
 //@ pure
 
-// getAffectedKeys / integrate: interface used by ExecuteBatch (their own bodies: see below)
-//@ func Batch.getAffectedKeys
-//@ trusted
-//@ modifies recv
-//@ ensures fresh(result) || result == nil
+// ---- the batch's two lists: sorting, the sorted list of distinct keys, and the merge into the stored values ----
+// brank(k) is the rank of k's contents in lexicographic byte order (bytes.Compare is decided by the total order on
+// ranks). Sortedness is stated over ghost rank sequences: r ranks a list l when r[j] is the rank of l's j-th key.
+//@ spec ranks(l kvList, r rankseq) bool = forall(j, 0, len(l), r[j] == brank(l[j].key))
+//@ spec sortedR(r rankseq, n int) bool = forall(i, 0, n, forall(j, i, n, r[i] <= r[j]))
+//@ spec keysNonNil(l kvList) bool = forall(i, 0, len(l), l[i].key != nil)
+//@ spec oneVal(l kvList) bool = forall(i, 0, len(l), len(l[i].values) == 1 && len(l[i].values[0]) < 4294967296)
+// a batch is built by Add/Del (which clear the sorted flag) and executed once: when its lists are non-empty it is
+// not flagged sorted ("The same batch cannot be applied twice")
+//@ spec batchInv(b *Batch) bool = keysNonNil(b.addedPairs) && keysNonNil(b.deletedPairs) && ref(b.addedPairs) != ref(b.deletedPairs) && (b.sorted ==> len(b.addedPairs) + len(b.deletedPairs) == 0)
 
+// The comparator handed to sort.Slice orders by key bytes (the sorting itself is the library's assumed contract).
+//@ func kvList.Sort@less
+//@ region funclit#0
+//@ flag skip frame
+//@ requires kv != nil && 0 <= i && i < len(*kv) && 0 <= j && j < len(*kv)
+//@ ensures[bykey] result0 == (brank((*kv)[i].key) < brank((*kv)[j].key))
+
+// kvList.Sort = sort.Slice with that comparator: assumed to leave the list sorted by it, holding the same elements
+// (rs: the ranks of the keys in their new order).
+//@ func kvList.Sort
+//@ trusted
+//@ flag noalloc on
+//@ ghost rs0 rankseq
+//@ ghostret rs rankseq = rs0
+//@ requires kv != nil
+//@ modifies (*kv)[0:len(*kv)]
+//@ ensures[ranks] ranks(*kv, rs) && sortedR(rs, len(*kv))
+//@ ensures[same] old(keysNonNil(*kv)) ==> keysNonNil(*kv)
+
+//@ func Batch.sort
+//@ ghost g0 rankseq
+//@ requires batch != nil && batchInv(batch)
+//@ modifies batch
+//@ modifies batch.addedPairs[0:len(batch.addedPairs)]
+//@ modifies batch.deletedPairs[0:len(batch.deletedPairs)]
+//@ before if#0 let sA = g0
+//@ before if#0 let sD = g0
+//@ after kvList.Sort#0 let sA = rs
+//@ after kvList.Sort#1 let sD = rs
+//@ ghostret rA rankseq = sA
+//@ ghostret rD rankseq = sD
+//@ ensures[sorted] batch.sorted && sortedR(rA, len(batch.addedPairs)) && sortedR(rD, len(batch.deletedPairs))
+//@ ensures[ranksA] ranks(batch.addedPairs, rA)
+//@ ensures[ranksD] ranks(batch.deletedPairs, rD)
+//@ ensures[same] batch.addedPairs == old(batch.addedPairs) && batch.deletedPairs == old(batch.deletedPairs) && keysNonNil(batch.addedPairs) && keysNonNil(batch.deletedPairs)
+
+// getAffectedKeys: the result is strictly increasing in byte order (hence free of duplicates), and every key of
+// either (sorted) list occurs in it: posA[i] / posD[i] is the position of the i-th added / deleted pair's key.
+// Ghost names: rA[j], rD[j] = rank of the j-th added / deleted key after sorting, rK[k] = rank of the k-th key of
+// the result, rL = rank of lastKey, wA/wD = the position witnesses built as the cursors move.
+//@ func Batch.getAffectedKeys
+//@ flag rank on
+//@ flag splitinv on
+//@ ghost wA0 seq, wD0 seq, rK0 rankseq, rL0 rank
+//@ requires batch != nil && batchInv(batch)
+//@ modifies batch
+//@ modifies batch.addedPairs[0:len(batch.addedPairs)]
+//@ modifies batch.deletedPairs[0:len(batch.deletedPairs)]
+//@ before for#0 let wA = wA0
+//@ before for#0 let wD = wD0
+//@ before for#0 let rK = rK0
+//@ before for#0 let rL = rL0
+//@ after inc#0 let wA = upd(wA, aOffset-1, len(keys)-1)
+//@ after inc#0 let rK = upd(rK, len(keys)-1, rA[aOffset-1])
+//@ after inc#0 let rL = rA[aOffset-1]
+//@ after inc#1 let wD = upd(wD, dOffset-1, len(keys)-1)
+//@ after inc#1 let rK = upd(rK, len(keys)-1, rD[dOffset-1])
+//@ after inc#1 let rL = rD[dOffset-1]
+//@ after inc#2 let wA = upd(wA, aOffset-1, len(keys)-1)
+//@ after inc#3 let wD = upd(wD, dOffset-1, len(keys)-1)
+//@ after inc#0 assert[pA-idx] 0 <= aOffset && aOffset <= len(batch.addedPairs) && 0 <= dOffset && dOffset <= len(batch.deletedPairs) && len(keys) <= aOffset + dOffset && cap(keys) == len(batch.addedPairs) + len(batch.deletedPairs) && fresh(keys) && len(keys) > 0 && lastKey != nil && lastKey == keys[len(keys)-1] && rL == rK[len(keys)-1]
+//@ after inc#0 assert[pA-nonnil] forall(k, 0, len(keys), keys[k] != nil)
+//@ after inc#0 assert[pA-link] forall(k, 0, len(keys), brank(keys[k]) == rK[k])
+//@ after inc#0 assert[pA-strict] forall(k, 0, len(keys), forall(m, k+1, len(keys), rK[k] < rK[m]))
+//@ after inc#0 assert[pA-upA] forall(i, aOffset, len(batch.addedPairs), rL <= rA[i])
+//@ after inc#0 assert[pA-upD] forall(i, dOffset, len(batch.deletedPairs), rL <= rD[i])
+//@ after inc#0 assert[pA-coverA] forall(i, 0, aOffset, 0 <= wA[i] && wA[i] < len(keys) && rK[wA[i]] == rA[i])
+//@ after inc#0 assert[pA-coverD] forall(i, 0, dOffset, 0 <= wD[i] && wD[i] < len(keys) && rK[wD[i]] == rD[i])
+//@ after inc#1 assert[pD-idx] 0 <= aOffset && aOffset <= len(batch.addedPairs) && 0 <= dOffset && dOffset <= len(batch.deletedPairs) && len(keys) <= aOffset + dOffset && cap(keys) == len(batch.addedPairs) + len(batch.deletedPairs) && fresh(keys) && len(keys) > 0 && lastKey != nil && lastKey == keys[len(keys)-1] && rL == rK[len(keys)-1]
+//@ after inc#1 assert[pD-nonnil] forall(k, 0, len(keys), keys[k] != nil)
+//@ after inc#1 assert[pD-link] forall(k, 0, len(keys), brank(keys[k]) == rK[k])
+//@ after inc#1 assert[pD-strict] forall(k, 0, len(keys), forall(m, k+1, len(keys), rK[k] < rK[m]))
+//@ after inc#1 assert[pD-upA] forall(i, aOffset, len(batch.addedPairs), rL <= rA[i])
+//@ after inc#1 assert[pD-upD] forall(i, dOffset, len(batch.deletedPairs), rL <= rD[i])
+//@ after inc#1 assert[pD-coverA] forall(i, 0, aOffset, 0 <= wA[i] && wA[i] < len(keys) && rK[wA[i]] == rA[i])
+//@ after inc#1 assert[pD-coverD] forall(i, 0, dOffset, 0 <= wD[i] && wD[i] < len(keys) && rK[wD[i]] == rD[i])
+//@ ghostret posA seq = wA
+//@ ghostret posD seq = wD
+//@ ghostret rkA rankseq = rA
+//@ ghostret rkD rankseq = rD
+//@ ghostret rkK rankseq = rK
+//@ ensures[sorted] batch.sorted && sortedR(rkA, len(batch.addedPairs)) && sortedR(rkD, len(batch.deletedPairs)) && batch.addedPairs == old(batch.addedPairs) && batch.deletedPairs == old(batch.deletedPairs)
+//@ ensures[ranksA] ranks(batch.addedPairs, rkA)
+//@ ensures[ranksD] ranks(batch.deletedPairs, rkD)
+//@ ensures[ranksK] forall(k, 0, len(result), brank(result[k]) == rkK[k])
+//@ ensures[fresh] fresh(result) && len(result) <= len(batch.addedPairs) + len(batch.deletedPairs)
+//@ ensures[nonnil] forall(k, 0, len(result), result[k] != nil)
+//@ ensures[strict] forall(k, 0, len(result), forall(m, k+1, len(result), rkK[k] < rkK[m]))
+//@ ensures[coverA] forall(i, 0, len(batch.addedPairs), 0 <= posA[i] && posA[i] < len(result) && rkK[posA[i]] == rkA[i])
+//@ ensures[coverD] forall(i, 0, len(batch.deletedPairs), 0 <= posD[i] && posD[i] < len(result) && rkK[posD[i]] == rkD[i])
+//@ loop 0 invariant[idx] 0 <= aOffset && aOffset <= len(batch.addedPairs) && 0 <= dOffset && dOffset <= len(batch.deletedPairs) && len(keys) <= aOffset + dOffset && cap(keys) == len(batch.addedPairs) + len(batch.deletedPairs) && fresh(keys)
+//@ loop 0 invariant[last] (lastKey == nil <==> len(keys) == 0) && (len(keys) > 0 ==> lastKey == keys[len(keys)-1] && rL == rK[len(keys)-1])
+//@ loop 0 invariant[nonnil] forall(k, 0, len(keys), keys[k] != nil)
+//@ loop 0 invariant[link] forall(k, 0, len(keys), brank(keys[k]) == rK[k])
+//@ loop 0 invariant[strict] forall(k, 0, len(keys), forall(m, k+1, len(keys), rK[k] < rK[m]))
+//@ loop 0 invariant[upA] len(keys) > 0 ==> forall(i, aOffset, len(batch.addedPairs), rL <= rA[i])
+//@ loop 0 invariant[upD] len(keys) > 0 ==> forall(i, dOffset, len(batch.deletedPairs), rL <= rD[i])
+//@ loop 0 invariant[coverA] forall(i, 0, aOffset, 0 <= wA[i] && wA[i] < len(keys) && rK[wA[i]] == rA[i])
+//@ loop 0 invariant[coverD] forall(i, 0, dOffset, 0 <= wD[i] && wD[i] < len(keys) && rK[wD[i]] == rD[i])
+//@ loop 0 decreases len(batch.addedPairs) - aOffset + len(batch.deletedPairs) - dOffset
+
+// integrate (C15): assumed contract only -- its body (two cursors over the sorted lists, appendValues/delValue on the
+// slot of each key) was attempted (cursor completeness from getAffectedKeys' coverage witnesses, slot = key position)
+// but the obligations that carry key ranks across the byte-heap writes of appendValues/delValue do not discharge
+// within the time limit; see DESIGN.md 0.6. The bounded stand-in multivalue-laws and batch-model cover its behaviour.
 //@ func Batch.integrate
 //@ trusted
 //@ requires dbValues != nil && len(*dbValues) == len(uniqueKeys)
@@ -190,7 +305,7 @@ package rdb
 //@ func RDB.ExecuteBatch
 //@ updates dbWrites, dbLastOp
 //@ flag skip frame
-//@ requires recv.writeMutex != nil && recv.db != nil && batch != nil
+//@ requires recv.writeMutex != nil && recv.db != nil && batch != nil && batchInv(batch)
 //@ ensures[empty] old(len(batch.addedPairs) + len(batch.deletedPairs)) == 0 ==> err == nil && dbWrites == old(dbWrites)
 //@ ensures[atomic] dbWrites == old(dbWrites) || (dbWrites == old(dbWrites) + 1 && dbLastOp == 3)
 //@ ensures[failnowrite] err == ErrNXKey || err == ErrNXVal || err == io.ErrUnexpectedEOF ==> dbWrites == old(dbWrites)
@@ -247,6 +362,8 @@ package rdb
 //@ ensures[add] d.Op == dbdiff.AddOp ==> len(batch.addedPairs) == old(len(batch.addedPairs)) + len(d.Records) && len(batch.deletedPairs) == old(len(batch.deletedPairs))
 //@ ensures[del] d.Op == dbdiff.DelOp ==> len(batch.deletedPairs) == old(len(batch.deletedPairs)) + len(d.Records) && len(batch.addedPairs) == old(len(batch.addedPairs))
 //@ ensures[other] d.Op != dbdiff.AddOp && d.Op != dbdiff.DelOp ==> len(batch.addedPairs) == old(len(batch.addedPairs)) && len(batch.deletedPairs) == old(len(batch.deletedPairs))
+//@ ensures[inv] old(batchInv(batch)) ==> batchInv(batch)
+//@ loop 0 invariant[inv] old(batchInv(batch)) ==> batchInv(batch)
 //@ loop 0 invariant 0 <= idx && idx <= len(d.Records) && d.Op == old(d.Op) && d.Records == old(d.Records) && len(batch.addedPairs) == old(len(batch.addedPairs)) + ite(d.Op == dbdiff.AddOp, idx, 0) && len(batch.deletedPairs) == old(len(batch.deletedPairs)) + ite(d.Op == dbdiff.DelOp, idx, 0)
 
 // RDB.ApplyDiff: each diff line is parsed AND converted before the scanner moves on (the entry only borrows the
@@ -266,3 +383,4 @@ package rdb
 //@ ensures[atomic] dbWrites == old(dbWrites) || (dbWrites == old(dbWrites) + 1 && dbLastOp == 3)
 //@ before RDB.ExecuteBatch#0 assert[complete] dbWrites == old(dbWrites)
 //@ loop 0 invariant scangen >= 1 && dbWrites == old(dbWrites) && batch != nil && codec != nil
+//@ loop 0 invariant[inv] batchInv(batch)
